@@ -466,11 +466,14 @@ class LateHandles:
     inside the schedule, while the other clients are in the middle of their calls - and now and then replaced by a freshly
     opened one (half of the time; otherwise all handles are opened beforehand, as a baseline)."""
 
-    def __init__(self, rng, n, factory, shared=None, reopen=0.12):
+    def __init__(self, rng, n, factory, shared=None, reopen=0.12, first=None):
         self.rng, self.factory, self.shared, self.reopen = rng, factory, shared, reopen
         self.late = shared is None and rng.random() < 0.5
         self.opened = []
         self.items = [None] * n
+        # `first`: client 0 keeps using this handle (typically the one that created the directory, with its settings),
+        # while the other clients open handles of their own
+        self.first = first if shared is None else None
         if shared is None and not self.late:
             self.items = [self._open() for _ in range(n)]
 
@@ -482,6 +485,8 @@ class LateHandles:
     def __getitem__(self, ci):
         if self.shared is not None:
             return self.shared
+        if ci == 0 and self.first is not None:
+            return self.first
         if self.items[ci] is None or (self.late and self.rng.random() < self.reopen):
             self.items[ci] = self._open()
         return self.items[ci]
